@@ -40,6 +40,6 @@ month        = "Jan" / "Feb" / "Mar" / "Apr"
             / "May" / "Jun" / "Jul" / "Aug"
             / "Sep" / "Oct" / "Nov" / "Dec"
 
-token = 1*( %x21 / %x23-27 / %x2A-2B / %x2D-2E / %x30-39 / %x41-5A / %x5E-7A / %x7C )
+token = 1*( %x21 / %x23-27 / %x2A-2B / %x2D-2E / %x30-39 / %x41-5A / %x5E-7A / %x7C / %x7E )
 '''
 
